@@ -138,7 +138,17 @@ func (s *State) Entails(e Lin) bool {
 }
 
 // EntailsEq: s |= e == 0.
-func (s *State) EntailsEq(e Lin) bool { return s.Entails(e) && s.Entails(e.Neg()) }
+func (s *State) EntailsEq(e Lin) bool {
+	if s.Entails(e) && s.Entails(e.Neg()) {
+		return true
+	}
+	// |e| < M and e ≡ 0 (mod M)  =>  e = 0
+	cg := s.CongOfExpr(s.Subst(e))
+	if cg.M > 1 && cg.R == 0 {
+		return s.Entails(e.AddConst(cg.M-1)) && s.Entails(e.Neg().AddConst(cg.M-1))
+	}
+	return false
+}
 
 // quickLo: lower bound of e from static ranges and single-atom inequalities.
 func (s *State) quickLo(e Lin) (int64, bool) {
@@ -401,9 +411,17 @@ func (s *State) CongOfExpr(e Lin) Cong {
 				if y.Bad {
 					continue
 				}
-				nm := l.M
+				// k*E ≡ 0 (mod |k|*M)
+				ak := k
+				if ak < 0 {
+					ak = -ak
+				}
+				nm, okm := mulOv(ak, l.M)
+				if !okm {
+					nm = l.M
+				}
 				if mod > 0 {
-					nm = gcd(mod, l.M)
+					nm = gcd(mod, nm)
 				}
 				if nm > 1 {
 					try(y, nm, depth-1)
@@ -570,6 +588,12 @@ func (s *State) dropLC(a Atom) {
 func (s *State) AddLCong(e Lin, m int64) {
 	e = s.Subst(e)
 	if e.Bad || m <= 1 || len(e.T) == 0 {
+		return
+	}
+	e = Lin{C: modpos(e.C, m), T: e.T}
+	if len(e.T) == 1 && (e.T[0].K == 1 || e.T[0].K == -1) {
+		// K*x + C ≡ 0  =>  x ≡ -K*C
+		s.addCong(e.T[0].A, Cong{m, modpos(-e.T[0].K*e.C, m)})
 		return
 	}
 	for _, l := range s.lc {
@@ -740,4 +764,45 @@ func mentionsAtomIn(st *State, a Atom) bool {
 		}
 	}
 	return false
+}
+
+// Slim returns a weaker copy of s that keeps only the inequalities and linear
+// congruences all of whose atoms satisfy keep (definitions, which are
+// substitutions, are kept). Dropping constraints is sound.
+func (s *State) Slim(keep func(a Atom, name string) bool) *State {
+	o := s.Clone()
+	ok := func(l Lin) bool {
+		for _, t := range l.T {
+			if !keep(t.A, s.eng.atoms[t.A].name) {
+				return false
+			}
+		}
+		return true
+	}
+	var in []Lin
+	for _, c := range o.ineq {
+		if ok(c) {
+			in = append(in, c)
+		}
+	}
+	o.ineq = in
+	var lc []LinCong
+	for _, l := range o.lc {
+		if ok(l.E) {
+			lc = append(lc, l)
+		}
+	}
+	o.lc = lc
+	o.corr = map[string]*Corr{}
+	o.touch()
+	return o
+}
+
+// AtomsOf lists the base atoms of e after substitution.
+func (s *State) AtomsOf(e Lin) []Atom {
+	var out []Atom
+	for _, t := range s.Subst(e).T {
+		out = append(out, t.A)
+	}
+	return out
 }
